@@ -89,6 +89,9 @@ def built_fn(prog, short):
         return None, None
     rec = {"short": short, "path": raw["path"], "kind": "Closure", "mir": raw["mir"], "loc": "src/embedded_io.rs"}
     f = mir.Fn(rec, prog)
+    from .. import inline, known_fns
+
+    f = inline.inline_into(prog, f, known_fns.KNOWN_FNS)
     upv = {}
     for u in raw["mir"].get("upvars", []):
         fields = [p for p in u["place"]["proj"] if p["k"] == "field"]
